@@ -81,6 +81,16 @@ class Decisions:
         v = self(key, 1 << 30)
         return perm_from_value(v, n)
 
+    def forced(self, key: str) -> int:
+        """a replay-only decision: 0 while searching, the table value when replaying (used to pin a replay to
+        the one element of an in-run enumeration that failed)"""
+        if self.table is None:
+            return 0
+        v = int(self.table.get(key, 0))
+        if v:
+            self.taken[key] = (v, v + 1)
+        return v
+
     def nonzero(self):
         return {k: v for k, (v, n) in self.taken.items() if v != 0}
 
